@@ -436,7 +436,7 @@ class _JSONParser:
             return partial_document, b""
         complete_document, partial_document = partial_document[:consumed], partial_document[consumed:]
         if not complete_document:
-            # If this condition is verified, decoder.decode() will most likely raise JSONDecodeError
-            complete_document = partial_document
-            partial_document = b""
+            # The document starts with a byte which cannot be part of a JSON text: decoder.decode() will raise JSONDecodeError.
+            # Only this byte is consumed, so that the documents received after it are not dropped with it.
+            complete_document, partial_document = partial_document[:1], partial_document[1:]
         return complete_document, partial_document
